@@ -2197,7 +2197,19 @@ class Interp:
                 return True
             except (PyRaise, Undecided):
                 return False
-        if name == "copy.deepcopy" or name == "copy.copy":
+        if name == "copy.copy":
+            v = a[0]
+            # shallow: a new object / container holding the same members (lxml elements copy deeply also under copy.copy)
+            if isinstance(v, Rec) and not self.find_method(v.cls, "__copy__"):
+                return Rec(v.cls, dict(v.f), mutable=v.mutable)
+            if isinstance(v, list):
+                return list(v)
+            if isinstance(v, dict):
+                return dict(v)
+            if isinstance(v, set):
+                return set(v)
+            return self.deepcopy(v)
+        if name == "copy.deepcopy":
             return self.deepcopy(a[0])
         if name == "dataclasses.replace":
             src = a[0]
